@@ -2484,6 +2484,9 @@ class Wallet(object):
             if nkey:
                 new_keys.append(nkey)
             if len(new_keys) < number_of_keys:
+                change_pos = [self.key_path.index(chg) for chg in ["change", "change'"] if chg in self.key_path]
+                if change_pos and change_pos[0] < len(fullpath):
+                    change = int(fullpath[change_pos[0]].strip("'"))
                 parent_id = new_keys[0].parent_id
                 if parent_id not in self._key_objects:
                     self.key(parent_id)
